@@ -131,7 +131,9 @@ func (vc *VC) stdIntrinsic(fr *Frame, fn *ssa.Function, name string, args []SV, 
 		vc.declareUF("unixsec", "(Real) (_ BitVec 64)")
 		if !vc.declared["ax:unixsec"] {
 			vc.declared["ax:unixsec"] = true
-			vc.decls = append(vc.decls, "(assert (forall ((a Real) (b Real)) (! (=> (<= a b) (bvsle (unixsec a) (unixsec b))) :pattern ((unixsec a) (unixsec b)))))")
+			vc.decls = append(vc.decls, "(assert (forall ((a Real) (b Real)) (! (=> (<= a b) (bvsle (unixsec a) (unixsec b))) :pattern ((unixsec a) (unixsec b)))))",
+				"(assert (forall ((a Real)) (! (and (bvslt (bvneg (_ bv4611686018427387904 64)) (unixsec a)) (bvslt (unixsec a) (_ bv4611686018427387904 64))) :pattern ((unixsec a)))))")
+			vc.noteAssumption("library model: Unix seconds of every instant lie within +-2^62 (no overflow in bucket arithmetic)")
 		}
 		return []SV{scalar("(unixsec " + args[0].L[0] + ")")}, true
 	case "(time.Time).UnixNano":
